@@ -189,7 +189,11 @@ def gen_instance(rng, profile=None):
     if p.get("positive_costs"):
         params["costs"] = {"staff": rng.choice([1, 50]), "serviceTrip": rng.choice([1, 10, 100]),
                            "deadHeadTrip": rng.choice([5, 50, 500]), "idle": rng.choice([1, 20])}
+    if p.get("zero_costs"):
+        params["costs"] = {"staff": 0, "serviceTrip": 0, "deadHeadTrip": 0, "idle": 0}
     mc = rng.choice([None, 0, 1, 15])
+    if p.get("zero_costs"):
+        mc = rng.choice([None, 0])
     if p.get("positive_costs") and mc == 0:
         mc = 1
     if mc is not None:
